@@ -166,6 +166,8 @@ pub fn model_step(t: &IdealTree, op: &TreeOp) -> Expect {
                 }
                 m
             };
+            // removing only positions that were never set is "nothing to do" as well
+            let nothing = nothing || (vs.is_empty() && rem.iter().all(|r| *r >= t.hwm && *r < cap));
             if nothing {
                 Expect { ok: Some(same()), err: vec![same()] }
             } else if fits && rem_ok {
@@ -799,9 +801,9 @@ fn trunc(v: &[u64]) -> Vec<u64> {
 
 fn owned(focus: Focus, symptom: &str) -> bool {
     match focus {
-        Focus::C06 => matches!(symptom, "panic" | "wrong-result" | "wrong-leaves" | "wrong-root" | "wrong-subtree-root" | "wrong-leaf-count" | "oob-read-accepted" | "rejected-but-changed"),
+        Focus::C06 => matches!(symptom, "panic" | "wrong-result" | "wrong-state" | "oob-read-accepted" | "rejected-but-changed"),
         Focus::C07 => matches!(symptom, "wrong-proof" | "proof-not-binding" | "panic-in-proof"),
-        Focus::C08 => matches!(symptom, "panic" | "wrong-result" | "wrong-leaves" | "wrong-root" | "wrong-subtree-root" | "wrong-leaf-count" | "rejected-but-changed"),
+        Focus::C08 => matches!(symptom, "panic" | "wrong-result" | "wrong-state" | "rejected-but-changed"),
         Focus::C15 => matches!(symptom, "wrong-empty-list"),
     }
 }
@@ -898,6 +900,15 @@ pub fn judge(c: &CaseCtx, pre: &IdealTree, op: &TreeOp, outcome: &Outcome, be: &
     let primary_present = all.iter().any(|(s, _)| !matches!(s.as_str(), "wrong-empty-list" | "wrong-proof"));
     if primary_present {
         all.retain(|(s, _)| !matches!(s.as_str(), "wrong-empty-list" | "wrong-proof"));
+        // one finding class per transition: the first symptom in the order panic, wrong result,
+        // rejected-but-changed, wrong state (leaves, leaf count, root, subtree roots are one class:
+        // they are views of the same stored state; the detail says which view differs first)
+        let prio = |s: &str| match s { "panic" => 0, "wrong-result" => 1, "rejected-but-changed" => 2, "oob-read-accepted" => 4, _ => 3 };
+        all.sort_by_key(|(s, _)| prio(s));
+        all.truncate(1);
+        if prio(&all[0].0) == 3 {
+            all[0].0 = "wrong-state".into();
+        }
     }
     if c.focus.owns_op(op) {
         let mut seen = BTreeSet::new();
